@@ -316,10 +316,13 @@ pub struct PayKnobs {
     pub cust_digits_msg: Option<Vec<u64>>,
     /// break one linking of commitment scalars: name of the link to leave independent
     pub unlink: Option<&'static str>,
+    /// replace the customer's digit proof 0 by a proof over an arbitrary "digit" scalar with a
+    /// signature the prover supplies (e.g. one fabricated from published signatures)
+    pub cust_digit0: Option<(Scalar, (G1Projective, G1Projective))>,
 }
 impl Default for PayKnobs {
     fn default() -> Self {
-        PayKnobs { cust_sig_of: None, cust_digits_msg: None, unlink: None }
+        PayKnobs { cust_sig_of: None, cust_digits_msg: None, unlink: None, cust_digit0: None }
     }
 }
 
@@ -327,7 +330,14 @@ pub fn pay_draft(m: &MerchantCtx, h: &PayHidden, token: &(G1Projective, G1Projec
     let cd = knobs.cust_digits_msg.clone().unwrap_or_else(|| digits_of(h.cust_range_value, h.digits));
     let cs_of = knobs.cust_sig_of.clone().unwrap_or_else(|| cd.clone());
     let md = digits_of(h.merch_range_value, h.digits);
-    let cust_range = range_raw(m, &cd, &cs_of, s);
+    let mut cust_range = range_raw(m, &cd, &cs_of, s);
+    if let Some((d, sig)) = &knobs.cust_digit0 {
+        let pk = &m.range.pk;
+        let bf = refc::rand_scalar(s);
+        let raw = Raw2::new(pk.g2, vec![pk.y2s[0]], vec![*d], bf, refc::rand_scalar(s), vec![refc::rand_scalar(s)]);
+        let r = refc::rand_nonzero(s);
+        cust_range.digits[0] = DigitRaw { digit: 0, raw, sig: refc::blind_and_randomize(sig, &bf, &r) };
+    }
     let merch_range = range_raw(m, &md, &md, s);
     let mut s_cb = cust_range.commitment_scalar();
     let s_mb = merch_range.commitment_scalar();
